@@ -31,9 +31,17 @@ type sessMar struct{ X int }
 func (m *sessMar) MarshalJSON() ([]byte, error) { return []byte(fmt.Sprintf(`"mar-%d"`, m.X)), nil }
 
 type sessRec struct {
-	V    int      `json:"v"`
-	F    sessMar  `json:"f"`
-	Next *sessRec `json:"next,omitempty"`
+	V    int       `json:"v"`
+	F    sessMar   `json:"f"`
+	Next *sessRec  `json:"next,omitempty"`
+	Kids []sessRec `json:"kids,omitempty"`
+}
+
+// the recursive type by value inside another type: the program of sessRec is then first compiled for a non-addressable
+// context, while its recursion edges (through the pointer and the slice) are addressable
+type sessDoc struct {
+	Title string  `json:"title"`
+	Root  sessRec `json:"root"`
 }
 
 type sessD4 struct {
@@ -82,8 +90,11 @@ func sessT2() sessType {
 }
 
 func sessT3() sessType {
-	mk := func() sessRec { return sessRec{1, sessMar{2}, &sessRec{3, sessMar{4}, nil}} }
-	return sessType{reflect.TypeOf(sessRec{}), func() interface{} { return mk() }, func() interface{} { v := mk(); return &v }, `{"v":9,"next":{"v":8}}`}
+	mk := func() sessDoc {
+		return sessDoc{"d", sessRec{1, sessMar{2}, &sessRec{3, sessMar{4}, nil, nil}, []sessRec{{5, sessMar{6}, nil, []sessRec{{7, sessMar{8}, nil, nil}}}}}}
+	}
+	return sessType{reflect.TypeOf(sessDoc{}), func() interface{} { return mk() }, func() interface{} { v := mk(); return &v },
+		`{"title":"t","root":{"v":9,"next":{"v":8},"kids":[{"v":7,"kids":[{"v":6}]}]}}`}
 }
 
 func sessT4() sessType {
